@@ -805,10 +805,17 @@ class FHInterp(Interp):
             out = []
             for it in idx.items:
                 li = as_lin_val(it)
-                if li is None or not li.is_const() or li.const not in (0, -1):
+                if li is None or not li.is_const() or li.const.denominator != 1:
                     return Opq("index", [base, idx])
-                out.append(base.elem("first" if li.const == 0 else "last"))
+                out.append(base.elem({0: "first", -1: "last"}.get(int(li.const), str(int(li.const)))))
             return Tup(out)
+        li = as_lin_val(idx)
+        if li is not None and li.is_const() and li.const.denominator == 1 and int(li.const) not in (0, -1):
+            # any constant position of a vector / array is a symbol of its own (so that a wrong element is a wrong value)
+            if isinstance(base, Vec) and not base.neg:
+                return base.elem(str(int(li.const)))
+            if isinstance(base, Arr):
+                return Lin.sym("%s[%d]" % (base.name, int(li.const)))
         return Interp.index(self, base, idx, e, st, frame)
 
     # ------------------------------------------------------------------- calls
